@@ -33,7 +33,7 @@ Inductive Inv1 : list tn -> list tn -> Prop :=
     Inv1 [TUnBracket a o f a' o' f'] [TBracket o a g o' a' g'].
 Definition Inv (f g : list tn) : Prop := Inv1 f g /\ Inv1 g f.
 
-Lemma cinv_sound : forall fuel f g, cinv fuel f = Some g -> Inv1 f g.
+Lemma cinv_sound : forall fuel f g, cinv true fuel f = Some g -> Inv1 f g.
 Proof.
   induction fuel as [|fuel IH]; intros f g H; [discriminate|].
   destruct f as [|x rest]; cbn [cinv] in H.
@@ -41,35 +41,39 @@ Proof.
   - destruct x; try discriminate.
     + (* TPush *) destruct rest as [|y rest]; [discriminate|]. destruct y; try discriminate.
       destruct (lit_inv z p) as [i|] eqn:Ei; [|discriminate]. cbn [obind] in H.
-      destruct (cinv fuel rest) as [r|] eqn:Er; [|discriminate]. cbn [obind] in H. inversion H; subst.
+      destruct (cinv true fuel rest) as [r|] eqn:Er; [|discriminate]. cbn [obind] in H. inversion H; subst.
       change (TPush z :: TP p :: rest) with ([TPush z; TP p] ++ rest). apply I_seq; auto using I_lit.
     + (* TP *) destruct (prim_inv p) as [i|] eqn:Ei; [|discriminate]. cbn [obind] in H.
-      destruct (cinv fuel rest) as [r|] eqn:Er; [|discriminate]. cbn [obind] in H. inversion H; subst.
+      destruct (cinv true fuel rest) as [r|] eqn:Er; [|discriminate]. cbn [obind] in H. inversion H; subst.
       change (TP p :: rest) with ([TP p] ++ rest). apply I_seq; auto using I_prim.
-    + (* TDip *) destruct (cinv fuel f) as [gi|] eqn:Eg; [|discriminate]. cbn [obind] in H.
-      destruct (cinv fuel rest) as [r|] eqn:Er; [|discriminate]. cbn [obind] in H. inversion H; subst.
+    + (* TDip: with or without a join behind it, the current engine keeps the dip *)
+      assert (G : obind (cinv true fuel f) (fun gi => obind (cinv true fuel rest) (fun r => Some (r ++ [TDip gi]))) = Some g).
+      { destruct rest as [|y rest']; auto. destruct (is_joinb y); auto. destruct (mono1 f); auto; discriminate. }
+      clear H. rename G into H.
+      destruct (cinv true fuel f) as [gi|] eqn:Eg; [|discriminate]. cbn [obind] in H.
+      destruct (cinv true fuel rest) as [r|] eqn:Er; [|discriminate]. cbn [obind] in H. inversion H; subst.
       change (TDip f :: rest) with ([TDip f] ++ rest). apply I_seq; auto using I_dip.
-    + (* TBoth *) destruct (cinv fuel f) as [gi|] eqn:Eg; [|discriminate]. cbn [obind] in H.
-      destruct (cinv fuel rest) as [r|] eqn:Er; [|discriminate]. cbn [obind] in H. inversion H; subst.
+    + (* TBoth *) destruct (cinv true fuel f) as [gi|] eqn:Eg; [|discriminate]. cbn [obind] in H.
+      destruct (cinv true fuel rest) as [r|] eqn:Er; [|discriminate]. cbn [obind] in H. inversion H; subst.
       change (TBoth a o f :: rest) with ([TBoth a o f] ++ rest). apply I_seq; auto using I_both.
-    + (* TUnBoth *) destruct (cinv fuel f) as [gi|] eqn:Eg; [|discriminate]. cbn [obind] in H.
-      destruct (cinv fuel rest) as [r|] eqn:Er; [|discriminate]. cbn [obind] in H. inversion H; subst.
+    + (* TUnBoth *) destruct (cinv true fuel f) as [gi|] eqn:Eg; [|discriminate]. cbn [obind] in H.
+      destruct (cinv true fuel rest) as [r|] eqn:Er; [|discriminate]. cbn [obind] in H. inversion H; subst.
       change (TUnBoth a o f :: rest) with ([TUnBoth a o f] ++ rest). apply I_seq; auto using I_unboth.
-    + (* TBracket *) destruct (cinv fuel f) as [gi|] eqn:Eg; [|discriminate]. cbn [obind] in H.
-      destruct (cinv fuel g0) as [hi|] eqn:Eh; [|discriminate]. cbn [obind] in H.
-      destruct (cinv fuel rest) as [r|] eqn:Er; [|discriminate]. cbn [obind] in H. inversion H; subst.
+    + (* TBracket *) destruct (cinv true fuel f) as [gi|] eqn:Eg; [|discriminate]. cbn [obind] in H.
+      destruct (cinv true fuel g0) as [hi|] eqn:Eh; [|discriminate]. cbn [obind] in H.
+      destruct (cinv true fuel rest) as [r|] eqn:Er; [|discriminate]. cbn [obind] in H. inversion H; subst.
       change (TBracket a o f a' o' g0 :: rest) with ([TBracket a o f a' o' g0] ++ rest).
       apply I_seq; auto using I_bracket.
-    + (* TUnBracket *) destruct (cinv fuel f) as [gi|] eqn:Eg; [|discriminate]. cbn [obind] in H.
-      destruct (cinv fuel g0) as [hi|] eqn:Eh; [|discriminate]. cbn [obind] in H.
-      destruct (cinv fuel rest) as [r|] eqn:Er; [|discriminate]. cbn [obind] in H. inversion H; subst.
+    + (* TUnBracket *) destruct (cinv true fuel f) as [gi|] eqn:Eg; [|discriminate]. cbn [obind] in H.
+      destruct (cinv true fuel g0) as [hi|] eqn:Eh; [|discriminate]. cbn [obind] in H.
+      destruct (cinv true fuel rest) as [r|] eqn:Er; [|discriminate]. cbn [obind] in H. inversion H; subst.
       change (TUnBracket a o f a' o' g0 :: rest) with ([TUnBracket a o f a' o' g0] ++ rest).
       apply I_seq; auto using I_unbracket.
 Qed.
 
 Theorem check_un_sound f g : check_un f g = true -> Inv1 f g.
 Proof.
-  unfold check_un, check_un_code. destruct (cinv (S (lsize f)) f) as [g'|] eqn:E; [|discriminate].
+  unfold check_un, check_un_code. destruct (cinv true (S (lsize f)) f) as [g'|] eqn:E; [|discriminate].
   unfold tnl_eqb. destruct (list_eq_dec tn_eq_dec g' g); [|discriminate]. subst. intros _.
   eapply cinv_sound; eauto.
 Qed.
@@ -175,6 +179,21 @@ Proof.
   destruct x as [t sh d]. unfold uncouple, couple_eq; cbn. destruct sh as [|n s]; try discriminate.
   destruct n as [|[|[|n]]]; try discriminate. intros H; inversion H; subst; cbn.
   rewrite ety_eqb_refl, list_eqb_refl_nat. cbn. rewrite firstn_skipn. reflexivity.
+Qed.
+
+(** un-join splits off exactly what join put in front *)
+Lemma unjoin_join_scalar a b v : join_scalar a b = Ok v -> unjoin1 v = Ok (a, b).
+Proof.
+  destruct a as [ta sa da], b as [tb sb db]. unfold join_scalar, unjoin1; cbn [aty ash adata].
+  destruct sa; try discriminate. destruct sb as [|n [|? ?]]; try discriminate.
+  destruct da as [|e [|? ?]]; try discriminate. destruct (ety_eqb ta tb) eqn:Et; [|discriminate].
+  apply ety_eqb_eq in Et. subst. intros H; inversion H; subst. reflexivity.
+Qed.
+Lemma join_unjoin1 x a b : unjoin1 x = Ok (a, b) -> join_scalar a b = Ok x.
+Proof.
+  destruct x as [t sh d]. unfold unjoin1, join_scalar; cbn [aty ash adata].
+  destruct sh as [|[|n] [|? ?]]; try discriminate. destruct d as [|e d]; try discriminate.
+  intros H; inversion H; subst; cbn [aty ash adata]. rewrite ety_eqb_refl. reflexivity.
 Qed.
 
 (** x + c - c = x and x - c + c = x, on numbers and on characters *)
@@ -311,6 +330,14 @@ Proof.
   - (* UnFix *) destruct stk as [|x r]; [discriminate|]. apply bind_ok in E as (v & Ev & E). apply ck_ok in E as [-> Kv].
     apply st_okb_cons in Hs as [A Hs]. split; [|apply st_okb_cons; auto].
     apply tp_of. cbn [prim_sem fst]. rewrite (fix_unfix _ _ Ev). apply ck_of; auto.
+  - (* Join *) destruct stk as [|a [|b r]]; try discriminate. apply bind_ok in E as (v & Ev & E). apply ck_ok in E as [-> Kv].
+    apply st_okb_cons in Hs as [A Hs]. apply st_okb_cons in Hs as [B Hs]. split; [|apply st_okb_cons; auto].
+    apply tp_of. cbn [prim_sem fst]. rewrite (unjoin_join_scalar a b v Ev). cbn [bind fst snd].
+    unfold ck2. rewrite A, B. reflexivity.
+  - (* UnJoin *) destruct stk as [|x r]; [discriminate|]. apply bind_ok in E as ([a b] & Ev & E). cbn [fst snd] in E.
+    apply ck2_ok in E as (-> & Ka & Kb). apply st_okb_cons in Hs as [A Hs].
+    split; [|apply st_okb_cons; split; auto; apply st_okb_cons; auto].
+    apply tp_of. cbn [prim_sem fst]. rewrite (join_unjoin1 _ _ _ Ev). cbn [bind]. apply ck_of; auto.
 Qed.
 
 Lemma num_okb c : arr_okb (num c) = true -> True. Proof. auto. Qed.
@@ -524,4 +551,41 @@ Theorem inv_inv_same f g h : Inv1 f g -> Inv1 g h -> forall s s', st_okb s = tru
 Proof.
   intros A B s s' Hs H. destruct (inv_left _ _ A s s' Hs H) as [G K].
   destruct (inv_left _ _ B s' s K G) as [G' _]. exact G'.
+Qed.
+
+(* ------------------------------------------------------------------ un of a join after a dip *)
+
+(** The engine BEFORE commit 8f54207 ([cinv false]): for `⊂⊙¯` it emitted `UnJoin ¯` - the inverse of
+    the dipped function without its dip - which is no inverse: on 3 [¯4] (F gives [3 4]) it returns
+    ¯3 [4].  A statement about the model of the OLD code; the input is replayed on the implementation
+    on every run (harness/src/bin/c03.rs DIRECTED, regression:join-dip). *)
+Definition dipjoin_f : list tn := [TDip [TP P_Neg]; TP P_Join].
+Definition dipjoin_s : st := ([num 3; Arr TNum [1%nat] [ENum (-4)]], []).
+Theorem un_join_dip_refuted_pre : exists g s',
+  cinv false (S (lsize dipjoin_f)) dipjoin_f = Some g /\ st_okb dipjoin_s = true /\
+  trun dipjoin_f dipjoin_s = Ok s' /\ trun g s' <> Ok dipjoin_s.
+Proof.
+  exists [TP P_UnJoin; TP P_Neg], ([Arr TNum [2%nat] [ENum 3; ENum 4]], []).
+  split; [vm_compute; reflexivity|]. split; [vm_compute; reflexivity|]. split; [vm_compute; reflexivity|].
+  vm_compute. discriminate.
+Qed.
+
+(** The CURRENT engine keeps the dip, and that is an inverse: for every join-free monadic straight
+    line g of the catalogue whose inverse the engine derives as gi, `UnJoin ⊙gi` undoes `⊙g ⊂` on every
+    admissible state on which it succeeds *)
+Theorem un_join_dip_current : forall fuel g gi, cinv true fuel g = Some gi ->
+  law [TDip g; TP P_Join] [TP P_UnJoin; TDip gi].
+Proof.
+  intros fuel g gi H. apply inv_left.
+  change [TDip g; TP P_Join] with ([TDip g] ++ [TP P_Join]).
+  change [TP P_UnJoin; TDip gi] with ([TP P_UnJoin] ++ [TDip gi]).
+  apply I_seq; [apply I_dip; eapply cinv_sound; eauto | apply I_prim; reflexivity].
+Qed.
+(** ... this is what the current model derives for the former counterexample, and it restores it *)
+Theorem un_join_dip_witness_current :
+  cinv true (S (lsize dipjoin_f)) dipjoin_f = Some [TP P_UnJoin; TDip [TP P_Neg]] /\
+  exists s', trun dipjoin_f dipjoin_s = Ok s' /\ trun [TP P_UnJoin; TDip [TP P_Neg]] s' = Ok dipjoin_s.
+Proof.
+  split; [vm_compute; reflexivity|].
+  exists ([Arr TNum [2%nat] [ENum 3; ENum 4]], []). split; vm_compute; reflexivity.
 Qed.
